@@ -94,7 +94,7 @@ func c14W1(b *core.B, r *core.Rng, nProg int) {
 		text := p.canonical()
 		if pi%3 == 0 {
 			// make sure every third program evaluates a pattern nobody has compiled yet
-			text += "<%= cs ~= \"^zz" + salt + "\" %><%= truncate(cs) %><%= pathFor(pf" + fmt.Sprint(pi%8) + ") %>"
+			text += "<%= cs ~= \"^zz" + salt + "\" %><%= truncate(cs) %><%= pathFor(pf" + fmt.Sprint(pi%8) + ") %><%= spare + ci + \"" + salt + "\" %>"
 		}
 		if !b.Begin("W1 " + text) {
 			continue
